@@ -15,13 +15,12 @@ Definition mkcall (pid wid wver fail reg : nat) (fwd : bool) (geom : option (nat
 Definition same_geom : option (nat * nat * nat) := Some (5, 5, 0).   (* out='same' *)
 Definition full_geom : option (nat * nat * nat) := Some (6, 6, 0).   (* out='full' with another Rmax+1 *)
 
-(* F5: _ibs is not keyed by the output geometry *)
+(* F5 (fixed in /repo, commit "rbasex image-basis cache is keyed by the output
+   geometry"): out='same' then out='full' now gives the fresh result *)
 Definition ibs_hist : list op := [Call (mkcall 1 0 0 0 0 false same_geom BNone)].
 Definition ibs_call : op := Call (mkcall 1 0 0 0 0 false full_geom BNone).
-Theorem ibs_not_keyed_refuted :
-  res_code (fresh ibs_call) = 0 /\ out_eqv (last_result ibs_hist ibs_call) (fresh ibs_call) = false /\
-  ibs_mismatch (last_result ibs_hist ibs_call) = true.
-Proof. repeat split; vm_compute; reflexivity. Qed.
+Example ibs_keyed : out_eqv (last_result ibs_hist ibs_call) (fresh ibs_call) = true.
+Proof. vm_compute. reflexivity. Qed.
 
 (* F6: weights are compared by identity: same object (wid 1), content changed
    in place (version 100 -> 101) *)
